@@ -23,6 +23,21 @@ Every occurrence of a tainted path is classified by its innermost enclosing cons
   -> UEnvRead; field declarations -> UDecl; anything else (argument of an unknown function, field of a
   struct that is not secret-bearing such as an Event, an unknown method on a secret) -> UOther.
 
+Errors of deserialisation (serde type errors QUOTE the offending scalar: `invalid type: string "...", expected a map`):
+  a call `serde_json::from_value|from_str|from_slice|from_reader` whose target type (turbofish, `let` annotation, or the
+  function's return type for a tail call) is a secret-bearing type is a SECRET DESERIALISATION SITE: its whole result -
+  the Ok value AND the error - is secret-tainted.  The site itself is UDeserErrDropped when the error is discarded on the
+  spot (`.unwrap_or_default()`, `.unwrap_or(..)`, `.ok()`, `.is_ok()`, `.is_err()`, `.unwrap_or_else(|_| ..)`), UFormat for
+  `.unwrap()` / `.expect(..)` (the panic message prints the error), UOther when the error leaves the function through `?`;
+  otherwise the bound error is tracked like any secret value (`Err(err) => Report { error: Some(err.to_string()) }` is a
+  UOther: field of a struct that is not secret-bearing).  The arguments of such a site, and everything they were built
+  from inside the function (backward through let / match / for / `f(&mut x, &y)`, stopping at file reads whose argument is
+  the public path), are the configuration DOCUMENT (kind `doc`: the text / serde_json::Value of the config files, which
+  holds the secrets); callee parameters receiving a doc are doc.  A doc may be moved, parsed and merged; formatting or
+  serialising it, putting it into a struct that is not secret-bearing, or deserialising it into ANY typed target (not
+  `Value`) and keeping the error are flagged the same way.  Errors of an untyped parse (target `Value`) carry positions
+  only and are clean.
+
 Emits coq/Gen/SecretUses.v: `gen_use_kinds : list N`, `gen_derives : list (str * N)`, `gen_found_all`, the
 site list as a comment, and the obligation `uses_wf gen_use_kinds gen_derives gen_found_all = true`
 (Model/SecretFlow.v: only the kinds of flow the model has; only the derives known today).  When an
@@ -32,7 +47,11 @@ import argparse, os, re, sys
 
 KIND = {"UDecl": 0, "UMove": 1, "UResolve": 2, "UPresence": 3, "UBearerAuth": 4, "URequestHeader": 5,
         "UNameProjection": 6, "UEnvRead": 7, "UEnvSet": 8, "UTestOnly": 9, "UFormat": 10, "USerialize": 11,
-        "UOther": 12}
+        "UOther": 12, "UDeserErrDropped": 13}
+DESER_FNS = {"from_value", "from_str", "from_slice", "from_reader"}
+FILE_READERS = {"read_to_string", "read", "read_link", "read_dir", "open"}
+ERR_DROPS = {"unwrap_or_default", "unwrap_or", "ok", "is_ok", "is_err"}
+ERR_CLOSURES = {"map_err", "unwrap_or_else", "or_else", "inspect_err"}
 FORMAT_MACROS = {"format", "print", "println", "eprint", "eprintln", "write", "writeln", "panic", "assert",
                  "assert_eq", "assert_ne", "debug_assert", "debug_assert_eq", "debug_assert_ne", "unreachable",
                  "todo", "unimplemented", "dbg", "info", "warn", "error", "debug", "trace", "event", "span",
@@ -490,6 +509,19 @@ class Analyzer:
         self.sites = {}
         self.shadow_cache = {}
         self.cur_fn = None
+        self.cur_tainted = None
+        self.doc_params = set()      # (free fn name, parameter index) receiving the configuration document
+        self.free_fns = {}
+        for fn in fns:
+            if fn.impl_type is None:
+                self.free_fns.setdefault(fn.name, fn)
+        self.err_tainted_fns = set()  # free fns with a typed deserialisation whose error is not dropped
+        for fn in fns:
+            lo, hi = fn.body
+            for i in range(lo + 1, hi):
+                d = self.deser_site(fn.fi, i, fn)
+                if d and d[2] != "untyped" and self.deser_error_fate(fn.fi, d)[0] != "dropped":
+                    self.err_tainted_fns.add(fn.name)
 
     # ------------------------------------------------------------------ small helpers
     def param_names(self, fn):
@@ -535,9 +567,213 @@ class Analyzer:
                 q = None
         return (q, fi.toks[i].s)
 
+
+    # ------------------------------------------------------------------ deserialisation sites
+    def deser_site(self, fi, i, fn):
+        """`path::from_value::<T>(args)` at token i -> (open paren, close paren, class, type ids);
+        class: 'secret' (T secret-bearing), 'untyped' (serde_json::Value), 'typed' (anything else / unknown)"""
+        toks = fi.toks
+        t = toks[i]
+        if t.k != "id" or t.s not in DESER_FNS or not fi.is_p(i - 1, "::") or fi.test[i]:
+            return None
+        j, tids = i + 1, []
+        if fi.is_p(j, "::") and fi.is_p(j + 1, "<"):
+            k, depth = j + 1, 0
+            while k < len(toks):
+                if fi.is_p(k, "<"):
+                    depth += 1
+                elif fi.is_p(k, ">"):
+                    depth -= 1
+                    if depth == 0:
+                        break
+                elif toks[k].k == "id":
+                    tids.append(toks[k].s)
+                k += 1
+            j = k + 1
+        if not fi.is_p(j, "(") or j not in fi.mate:
+            return None
+        if not tids:
+            k = i
+            while fi.is_p(k - 1, "::") and fi.is_id(k - 2):
+                k -= 2
+            if fi.is_p(k - 1, "=") and not fi.is_p(k - 2, "="):
+                q, colon = k - 2, None
+                while q >= 0 and not fi.is_id(q, "let") and not (toks[q].k == "p" and toks[q].s in (";", "{", "}")):
+                    if toks[q].k == "p" and toks[q].s in CLOSE and q in fi.mate:
+                        q = fi.mate[q] - 1
+                        continue
+                    if fi.is_p(q, ":"):
+                        colon = q
+                    q -= 1
+                if fi.is_id(q, "let") and colon is not None:
+                    tids = [x.s for x in toks[colon + 1:k - 1] if x.k == "id"]
+            elif fn is not None and (fi.is_p(k - 1, ";") or fi.is_p(k - 1, "{") or fi.is_p(k - 1, "}") or fi.is_id(k - 1, "return")):
+                tids = list(fn.ret)
+        if set(tids) & self.secret:
+            cls = "secret"
+        elif "Value" in tids:
+            cls = "untyped"
+        else:
+            cls = "typed"
+        return j, fi.mate[j], cls, tids
+
+    def deser_error_fate(self, fi, d):
+        """what happens to the error right at the site: ('dropped'|'panic'|'escapes'|'tracked', text)"""
+        chain, end = self.chain_methods(fi, d[1] + 1)
+        k = d[1] + 1
+        if fi.is_p(k, "?"):
+            return "escapes", "`?` right after the call"
+        for m, o, c in chain:
+            if m in ERR_DROPS:
+                return "dropped", f".{m}()"
+            if m in ("unwrap_or_else", "or_else", "map_err", "inspect_err"):
+                cl = self.closure_at(fi, o, c)
+                if cl and (cl[0][1] == cl[0][0] or all(x.s.startswith("_") for x in fi.toks[cl[0][0]:cl[0][1]] if x.k == "id")):
+                    if m in ("unwrap_or_else", "or_else"):
+                        return "dropped", f".{m}(|_| ..)"
+                    continue
+                if fi.is_p(c + 1, "?"):
+                    return "escapes", f".{m}(..)?"
+                return "tracked", f".{m}(|e| ..)"
+            if m in ("unwrap", "expect", "unwrap_err", "expect_err"):
+                return "panic", f".{m}()"
+            if m in ("context", "with_context"):
+                if fi.is_p(c + 1, "?"):
+                    return "escapes", f".{m}(..)?"
+                continue
+            break
+        if fi.is_p(end, "?"):
+            return "escapes", "`?` after the call chain"
+        return "tracked", "bound / matched"
+
+    def local_ids(self, fi, a, b):
+        """identifiers used as values in [a, b): not call / macro / path heads, not fields, not inside the argument list of a
+        file read (whose argument is the public path)"""
+        out, toks, i = [], fi.toks, a
+        while i < b:
+            t = toks[i]
+            if t.k == "id" and t.s in FILE_READERS and fi.is_p(i + 1, "(") and (i + 1) in fi.mate:
+                i = fi.mate[i + 1] + 1
+                continue
+            if t.k == "id" and t.s not in KEYWORDS and (t.s[0].islower() or t.s[0] == "_") and t.s not in ("self", "true", "false") \
+                    and not fi.is_p(i + 1, "(") and not fi.is_p(i + 1, "::") and not fi.is_p(i + 1, "!") \
+                    and not fi.is_p(i - 1, ".") and not fi.is_p(i - 1, "::"):
+                out.append(t.s)
+            i += 1
+        return out
+
+    def doc_seeds(self, fn):
+        """identifiers holding the configuration document in fn: arguments of secret deserialisation sites, closed
+        backward through bindings"""
+        fi, toks = fn.fi, fn.fi.toks
+        lo, hi = fn.body
+        doc = set()
+        a, b = fn.params
+        for n, (x, y) in enumerate(split_top(fi, a + 1, b)):
+            if (fn.name, n) in self.doc_params and fn.impl_type is None:
+                seg = toks[x:y]
+                if seg and seg[0].k == "id":
+                    doc.add(seg[1].s if seg[0].s == "mut" and len(seg) > 1 else seg[0].s)
+        for i in range(lo + 1, hi):
+            d = self.deser_site(fi, i, fn)
+            if d and d[2] == "secret":
+                doc.update(self.local_ids(fi, d[0] + 1, d[1]))
+        if not doc:
+            return doc
+        for _ in range(6):
+            before = set(doc)
+            i = lo + 1
+            while i < hi:
+                t = toks[i]
+                if t.k == "id" and t.s == "let":
+                    eq = i + 1
+                    while eq < hi and not (fi.is_p(eq, "=") or fi.is_p(eq, ";")):
+                        eq = fi.mate.get(eq, eq) + 1 if (toks[eq].k == "p" and toks[eq].s in OPEN) else eq + 1
+                    if eq < hi and fi.is_p(eq, "="):
+                        end = eq + 1
+                        while end < hi and not fi.is_p(end, ";") and not (fi.is_p(end, "{") and self.is_block(fi, end) and (fi.is_id(i - 1, "if") or fi.is_id(i - 1, "while"))):
+                            end = fi.mate.get(end, end) + 1 if (toks[end].k == "p" and toks[end].s in OPEN) else end + 1
+                        if set(pattern_idents(toks[i + 1:eq])) & doc:
+                            doc.update(self.local_ids(fi, eq + 1, end))
+                elif t.k == "id" and t.s in ("match", "for"):
+                    k = i + 1
+                    while k < hi and not (fi.is_p(k, "{") and self.is_block(fi, k)) and not fi.is_p(k, ";"):
+                        k = fi.mate.get(k, k) + 1 if (toks[k].k == "p" and toks[k].s in OPEN and not (toks[k].s == "{" and self.is_block(fi, k))) else k + 1
+                    if k < hi and fi.is_p(k, "{") and k in fi.mate:
+                        if t.s == "for":
+                            j = i + 1
+                            while j < k and not fi.is_id(j, "in"):
+                                j += 1
+                            if set(pattern_idents(toks[i + 1:j])) & doc:
+                                doc.update(self.local_ids(fi, j + 1, k))
+                        else:
+                            close, st, m = fi.mate[k], k + 1, k + 1
+                            while m < close:
+                                if toks[m].k == "p" and toks[m].s in OPEN:
+                                    m = fi.mate.get(m, m) + 1
+                                    continue
+                                if fi.is_p(m, "=>"):
+                                    pat = toks[st:m]
+                                    head = next((x.s for x in pat if x.k == "id"), "")
+                                    if head != "Err" and set(pattern_idents(pat)) & doc:
+                                        doc.update(self.local_ids(fi, i + 1, k))
+                                    m += 1
+                                    if fi.is_p(m, "{") and m in fi.mate:
+                                        m = fi.mate[m] + 1
+                                    else:
+                                        while m < close and not fi.is_p(m, ","):
+                                            m = fi.mate.get(m, m) + 1 if (toks[m].k == "p" and toks[m].s in OPEN) else m + 1
+                                    if fi.is_p(m, ","):
+                                        m += 1
+                                    st = m
+                                    continue
+                                m += 1
+                elif t.k == "p" and t.s == "(" and i in fi.mate and fi.is_id(i - 1) and toks[i - 1].s not in KEYWORDS:
+                    # f(&mut x, &y) with x a doc: y flows into it
+                    args = split_top(fi, i + 1, fi.mate[i])
+                    muts = [n for n, (x, y) in enumerate(args) if fi.is_p(x, "&") and fi.is_id(x + 1, "mut") and fi.is_id(x + 2) and toks[x + 2].s in doc]
+                    if muts:
+                        for n, (x, y) in enumerate(args):
+                            if n not in muts:
+                                doc.update(self.local_ids(fi, x, y))
+                i += 1
+            if doc == before:
+                break
+        return doc
+
+    def note_doc_args(self, fn, tainted):
+        """in-crate free functions called with a doc argument: their parameter becomes doc"""
+        fi, toks = fn.fi, fn.fi.toks
+        lo, hi = fn.body
+        for i in range(lo + 1, hi):
+            if toks[i].k == "id" and toks[i].s in self.free_fns and fi.is_p(i + 1, "(") and (i + 1) in fi.mate and not fi.is_p(i - 1, "."):
+                for n, (x, y) in enumerate(split_top(fi, i + 2, fi.mate[i + 1])):
+                    ids = [t.s for t in toks[x:y] if t.k == "id" and t.s not in ("mut", "clone", "as_str", "as_ref", "to_string", "to_owned")]
+                    if len(ids) == 1 and tainted.get(ids[0]) == "doc":
+                        self.doc_params.add((toks[i].s, n))
+
+    def scrutinee_err_tainted(self, fi, a, b, fn):
+        """does the expression [a, b) yield an Err that may quote its input?"""
+        for i in range(a, b):
+            d = self.deser_site(fi, i, fn)
+            if d and d[2] != "untyped":
+                return True
+            t = fi.toks[i]
+            if t.k == "id" and t.s in self.err_tainted_fns and fi.is_p(i + 1, "(") and not fi.is_p(i - 1, "."):
+                return True
+        return False
+
     def source_at(self, fi, i, fn):
         """a call producing a secret: (end index exclusive, kind)"""
         t = fi.toks[i]
+        if t.k == "id" and t.s in DESER_FNS:
+            d = self.deser_site(fi, i, fn)
+            if d and d[2] == "secret":
+                return d[1] + 1, "carrier"      # Ok value and error of a secret deserialisation
+            if d and d[2] == "typed" and self.cur_tainted is not None \
+                    and any(self.cur_tainted.get(x) == "doc" for x in self.local_ids(fi, d[0] + 1, d[1])):
+                return d[1] + 1, "doc"          # typed deserialisation of the configuration document
+            return None
         if t.k != "id" or not fi.is_p(i + 1, "(") or fi.is_p(i - 1, ".") or (i + 1) not in fi.mate or fi.is_id(i - 1, "fn"):
             return None
         if self.is_env_reader(fi, i):
@@ -761,6 +997,8 @@ class Analyzer:
                 continue
             if m in TRANSPARENT or m in CLOSURE_TAKERS:
                 continue
+            if k == "doc":
+                continue                     # whatever is computed from the document is (part of) the document
             if m in self.secret_methods:
                 ret = [key for key in (self.fn_returns | self.raw_returning) if key[1] == m and key[0] in self.secret]
                 if any(key in self.raw_returning for key in ret):
@@ -801,10 +1039,12 @@ class Analyzer:
                     elif typ == "call" and name[0].isupper():
                         if name in self.secret or (len(path) > 1 and path[1] in self.secret):
                             k = "carrier" if name in self.secret else k
-                        elif name in ("Some", "Ok", "Box", "Arc", "Rc"):
+                        elif name in ("Some", "Ok", "Box", "Arc", "Rc") or k == "doc":
                             pass
                         else:
                             return None
+                    elif k == "doc" and name not in FILE_READERS and name not in PRESENCE_END:
+                        pass                 # a function of the document (parse, strip, merge ..) yields document
                     else:
                         return None
             elif t.s == "{":
@@ -986,8 +1226,8 @@ class Analyzer:
                 return "UResolve", f"method {m} of a secret-bearing type"
             if m in ("bearer_auth", "header"):
                 break
-            if kind == "carrier":
-                return "UMove", f"method .{m}() on a carrier"
+            if kind in ("carrier", "doc"):
+                return "UMove", f"method .{m}() on a {kind}"
             return "UOther", f"method .{m}() applied to a secret value"
         p = fi.parent[i]
         while p >= 0:
@@ -1019,12 +1259,13 @@ class Analyzer:
                         p = fi.parent[p]
                         continue
                     if typ == "call" and name[0].isupper():
-                        if name in self.secret or (len(path) > 1 and path[1] in self.secret) or name in ("Box", "Arc", "Rc", "Mutex", "RwLock"):
+                        if name in self.secret or (len(path) > 1 and path[1] in self.secret) or name in ("Box", "Arc", "Rc", "Mutex", "RwLock") \
+                                or (kind == "doc" and (name == "Value" or "Value" in path)):
                             p = fi.parent[p]
                             continue
                         return "UOther", f"payload of {'::'.join(reversed(path))}(..) which is not secret-bearing"
-                    if kind == "carrier":
-                        return "UMove", f"carrier passed to {name}(..)"
+                    if kind in ("carrier", "doc"):
+                        return "UMove", f"{kind} passed to {name}(..)"
                     if name in self.secret_methods or name in self.env_wrappers:
                         return "UMove", f"argument of {name}"
                     return "UOther", f"secret value passed to {name}(..)"
@@ -1076,6 +1317,9 @@ class Analyzer:
             if set(ty) & self.secret:
                 self.bind(fi, seg[:colon], "carrier", tainted, fn)
         lo, hi = fn.body
+        for nm in sorted(self.doc_seeds(fn)):
+            tainted.setdefault(nm, "doc")
+        self.cur_tainted = tainted
 
         def skip_to(k, stops, brace_stops=False):
             while k < hi:
@@ -1126,6 +1370,8 @@ class Analyzer:
                         kind = self.expr_kind(fi, eq + 1, end, tainted, fn)
                         if colon is not None and set(x.s for x in toks[colon + 1:eq] if x.k == "id") & self.secret:
                             kind = kind or "carrier"
+                        if kind == "doc" and fi.is_id(i + 1, "Err") and not self.scrutinee_err_tainted(fi, eq + 1, end, fn):
+                            kind = None     # error of an untyped parse: positions only
                         if kind:
                             self.bind(fi, toks[i + 1:pat_end], kind, tainted, fn)
                 elif t.k == "id" and t.s == "for" and not fi.is_p(i + 1, "<"):
@@ -1144,6 +1390,7 @@ class Analyzer:
                     k = skip_to(i + 1, (";",), brace_stops=True)
                     if k < hi and fi.is_p(k, "{") and k in fi.mate:
                         kind = self.expr_kind(fi, i + 1, k, tainted, fn)
+                        clean_err = kind == "doc" and not self.scrutinee_err_tainted(fi, i + 1, k, fn)
                         if kind:
                             close = fi.mate[k]
                             st = m = k + 1
@@ -1154,7 +1401,8 @@ class Analyzer:
                                 if fi.is_p(m, "=>"):
                                     pat = toks[st:m]
                                     guard = next((n for n, x in enumerate(pat) if x.k == "id" and x.s == "if"), None)
-                                    self.bind(fi, pat[:guard] if guard is not None else pat, kind, tainted, fn)
+                                    if not (clean_err and pat and pat[0].k == "id" and pat[0].s == "Err"):
+                                        self.bind(fi, pat[:guard] if guard is not None else pat, kind, tainted, fn)
                                     m += 1
                                     if fi.is_p(m, "{") and m in fi.mate:
                                         m = fi.mate[m] + 1
@@ -1177,6 +1425,8 @@ class Analyzer:
                         if cl and cl[0][1] > cl[0][0]:
                             start = self.chain_start(fi, o - 2)
                             kind = self.expr_kind(fi, start, o - 2, tainted, fn)
+                            if kind == "doc" and toks[o - 1].s in ERR_CLOSURES and not self.scrutinee_err_tainted(fi, start, o - 2, fn):
+                                kind = None
                             if kind:
                                 self.bind(fi, toks[cl[0][0]:cl[0][1]], kind, tainted, fn)
                 elif t.k == "id" and fi.is_p(i + 1, "=") and not fi.is_p(i + 2, "=") and t.s not in KEYWORDS \
@@ -1188,6 +1438,7 @@ class Analyzer:
                 i += 1
             if tainted == before:
                 break
+        self.note_doc_args(fn, tainted)
 
         if record is None:
             # does the function return a raw secret?
@@ -1232,6 +1483,15 @@ class Analyzer:
                 i = max(j, i + 1)
                 continue
             t = toks[i]
+            if t.k == "id" and t.s in DESER_FNS:
+                d = self.deser_site(fi, i, fn)
+                docarg = d is not None and any(tainted.get(x) == "doc" for x in self.local_ids(fi, d[0] + 1, d[1]))
+                if d and (d[2] == "secret" or (d[2] == "typed" and docarg)):
+                    fate, how = self.deser_error_fate(fi, d)
+                    cls = {"dropped": "UDeserErrDropped", "panic": "UFormat", "escapes": "UOther", "tracked": "UMove"}[fate]
+                    what = "secret-bearing " + "/".join(x for x in d[3] if x in self.secret) if d[2] == "secret" else "typed target, configuration document as input"
+                    record((fi.rel, i, "deser"), cls, t.line,
+                           f"{fn.name}: `{t.s}` deserialisation ({what}); error {fate}: {how}")
             if t.k == "id" and fi.is_p(i + 1, "(") and self.is_secret_env_read(fi, i, fn):
                 record((fi.rel, i), "UEnvRead", t.line, f"{fn.name}: `{t.s}(..)` - secret environment read")
             if t.k == "str" and "{" in t.s:
@@ -1364,6 +1624,8 @@ def main():
                     ("UResolve", "ApiKeySource::resolve"), ("UEnvRead", "secret environment read")):
         if k not in kinds_found:
             problems.append(f"anchor use not found: {what}")
+    if not any("deserialisation (secret-bearing" in text for _, (cls, line, text) in sites.items()):
+        problems.append("anchor use not found: typed deserialisation of the merged configuration (serde_json::from_value::<RipConfig>)")
     if not any(r.startswith("ripd/src/server.rs") for r, _, _ in kinds_found.get("UPresence", [])):
         problems.append("anchor use not found: presence test in server.rs (doctor)")
 
@@ -1415,7 +1677,7 @@ def main():
     out.append("Proof. exact (uses_wf_sound _ _ _ gen_secret_uses_ok). Qed.")
     out.append("")
     open(os.path.join(a.out, "SecretUses.v"), "w").write("\n".join(out))
-    bad = [u for u in uses if u[2] >= 10]
+    bad = [u for u in uses if 10 <= u[2] <= 12]
     print(f"secret_uses: {len(files)} files, {len(secret)} secret-bearing types, {len(uses)} use sites, "
           f"{len(bad)} disallowed, {len(derives)} derives, found_all={found_all}")
     for u in bad:
